@@ -684,6 +684,28 @@ class NdArr:
     def __pow__(self, o):
         return self._arith('pow', o)
 
+    def _compare(self, op, pyop, other):
+        """Element-wise comparison: a flag per element, an expression of the two where they are not concrete."""
+        if isinstance(other, NdArr):
+            if other.shape != self.shape:
+                raise LayoutMismatch('array comparison with broadcasting is outside the modelled subset')
+            pairs = list(zip(self.elems, other.elems, strict=True))
+        else:
+            pairs = [(e, other) for e in self.elems]
+        return NdArr(self.shape, AbsDtype('bool'), [pyop(a, b) if is_concrete(a) and is_concrete(b) else Expr(op, a, b) for a, b in pairs])
+
+    def __lt__(self, o):
+        return self._compare('lt', lambda a, b: a < b, o)
+
+    def __le__(self, o):
+        return self._compare('le', lambda a, b: a <= b, o)
+
+    def __gt__(self, o):
+        return self._compare('gt', lambda a, b: a > b, o)
+
+    def __ge__(self, o):
+        return self._compare('ge', lambda a, b: a >= b, o)
+
     def _reduce(self, fn):
         if not self.all_concrete() or not self.elems:
             raise LayoutMismatch('reduction of a symbolic array')
